@@ -39,6 +39,18 @@ CHECKS["C02"] = dict(
           "round-off is not bounded."),
     ref="DESIGN.md section 4 C02")
 
+CHECKS["C14"] = dict(
+    engine="E1",
+    technique="contract-based deductive verification: symbolic dictionaries over the option-key universe plus a generic key, VCs from the AST of init_options/_iteration_check/_mode_check/set_user_pf_options, discharged by z3; documented defaults compared with default_options by evaluation",
+    text=("For every option key (all 23 defaults, iter, fluid, hyd_flag, the two excluded names and a generic unknown key) "
+          "the value stored in net._options is proved equal to the documented precedence call > user > default with the "
+          "documented couplings, for every presence pattern and every value of the three layers at once; the stored "
+          "layers (default_options, user_pf_options, kwargs) are proved unmodified; callee contracts of "
+          "_iteration_check/_mode_check are proved separately and applied at the call sites."),
+    note=(TB + "option values are elements of an uninterpreted sort with a truthiness predicate (python semantics of "
+          "==, is None, truthiness assumed for them); get_fluid(net).name is a string; deepcopy returns a fresh equal value."),
+    ref="DESIGN.md section 4 C14")
+
 NOT_APPLICABLE = {
     "C08": "uniqueness of the solution of the nonlinear system within tolerances and convergence of damped Newton in floating point: a whole-history/analytic property, no pre/post contract within reach expresses it (DESIGN.md section 5)",
     "C15": "the save/load round trip is the behaviour of pandapower/pandas/json/pickle/scipy object state; a contract strong enough would have to assume the property (DESIGN.md section 5)",
